@@ -48,6 +48,7 @@ class Contract:
     raises: List[Raises] = field(default_factory=list)  # exceptional outcomes (for callers) / allowed escapes (for proof)
     xensures: Dict[str, List[str]] = field(default_factory=dict)  # proved on every path raising that class
     modifies: List[str] = field(default_factory=list)  # heap field names (or "obj.field" paths, or "*")
+    cmodifies: List[Tuple[str, List[str]]] = field(default_factory=list)  # (condition over the entry state, fields): written only if cond
     effects: List[str] = field(default_factory=list)  # ghost statements on normal return (Assumed only)
     returns: Optional[str] = None  # type hint text for the result
     params: Optional[List[str]] = None  # parameter names for external callees
